@@ -122,7 +122,7 @@ type FakeAuth struct {
 
 func NewFakeAuth() *FakeAuth {
 	f := &FakeAuth{}
-	f.Server = httptest.NewServer(http.HandlerFunc(func(w http.ResponseWriter, r *http.Request) {
+	f.Server = httptest.NewUnstartedServer(http.HandlerFunc(func(w http.ResponseWriter, r *http.Request) {
 		r.ParseForm()
 		parts := strings.Split(strings.Trim(r.URL.Path, "/"), "/")
 		c := AuthCall{Endpoint: "other", Method: r.Method, Form: r.Form, Header: r.Header.Clone()}
@@ -152,6 +152,11 @@ func NewFakeAuth() *FakeAuth {
 		w.WriteHeader(ans.Status)
 		io.WriteString(w, ans.Body)
 	}))
+	// One connection per call: whether net/http transparently retries a request whose connection
+	// was reset depends on whether that connection had been reused, which would make "reset" answers
+	// depend on history outside the explored state.
+	f.Server.Config.SetKeepAlivesEnabled(false)
+	f.Server.Start()
 	return f
 }
 
